@@ -9,6 +9,7 @@ import FwdVerif.Lemmas.C14Conf
 import FwdVerif.Lemmas.C14Sort
 import FwdVerif.Lemmas.C14Proxy
 import FwdVerif.Lemmas.C14Pool
+import FwdVerif.Lemmas.C14Deco
 
 namespace FwdVerif
 namespace C14
@@ -481,6 +482,149 @@ example :
     (s.phase 0).answer? = some (some 10) ∧ (s.phase 1).answer? = some (some 20) ∧ (s.phase 2).vm? = some 0 ∧
       (s.phase 1).vm? = some 1 := by
   simp [prun, pstep, PState.init, setPhase, setReg, Phase.answer?, Phase.vm?]
+
+/-! ## 5. Decorated scripts (sloppy-mode globals, loops, shadowed helpers) and VMs with state -/
+
+/-- a plain decision tree inside a decorated script is evaluated as before and leaves the globals alone … -/
+theorem c14_deco_plain_tree (hc : Helper → List Val → Res) (u h : Bytes) (g : Globals) (t : Tree) :
+    evalDTree hc u h g t.toD = (evalTree hc u h t, g) := evalDTree_toD hc u h g t
+
+/-- … and returning every leaf through an undeclared scratch variable (`proxy = …; return proxy;`)
+    does not change what is returned, whatever the globals held before. -/
+theorem c14_deco_scratch_return (hc : Helper → List Val → Res) (u h : Bytes) (g : Globals) (x : Name) (t : Tree) :
+    (evalDTree hc u h g (t.via x)).1 = evalTree hc u h t := evalDTree_via hc u h g x t
+
+/-- The evaluation theorem for decorated scripts: when the decoration is observationally neutral —
+    the statements in front of the tree (implicit globals, loops over an undeclared counter, one-time
+    initialisation) run to their end on the VM's current globals, no helper is replaced, and the
+    tree is a plain tree (leaves returned directly or through a scratch global) — the answer is the
+    answer of the plain tree, on every VM state `g` and whatever the prelude was. -/
+theorem c14_deco_neutral (hc : Helper → List Val → Res) (s : DScript) (t : Tree) (g g' : Globals) (r : Req)
+    (hs : s.shadow = []) (ht : s.tree = t.toD ∨ ∃ x, s.tree = t.via x)
+    (hb : execStmts hc (some (r.url, r.host)) g s.body = (g', .ok ())) :
+    (callD hc s g r).1 = findProxyWith hc t r := by
+  unfold callD findProxyWith
+  rw [hs, shadowHc_nil, hb]
+  simp only []
+  rcases ht with ht | ⟨x, ht⟩
+  · rw [ht, evalDTree_toD]
+  · rw [ht, evalDTree_via]
+
+/-- non-vacuity: `g1 = 0; for (g0 = 0; g0 < 3; g0++) { g1 = g1 + 2; }` in front of a tree whose
+    leaves return through `g2`; the decorated script answers like the plain tree, and the globals it
+    leaves behind are the loop's (counter = bound, accumulator = 6) and the scratch variable. -/
+example :
+    let t : Tree := .ite (.truthy ⟨.dnsDomainIs, [.host, .lit (.str [46, 97])]⟩) (.ret (.lit (.str [80]))) (.ret (.lit (.num 5)))
+    let s : DScript := ⟨false, [], [], [.assign 1 (.lit (.num 0)), .loop 0 3 1 (.plus 1 2)], t.via 2⟩
+    let r : Req := ⟨[], [], [119, 46, 97]⟩
+    callD (callHelper ⟨[], [], []⟩) s [] r = (.ok [80], [(2, .str [80]), (0, .num 3), (1, .num 6)]) ∧
+      findProxy ⟨[], [], []⟩ t r = .ok [80] := by
+  decide
+
+/-- a top-level function of the script replaces the predefined helper of that name: every call of
+    it yields the script's value, calls of the other helpers are untouched. -/
+theorem c14_deco_shadow (sh : List (Helper × Val)) (hc : Helper → List Val → Res) (h : Helper) (args : List Val) :
+    (∀ v, sh.lookup h = some v → shadowHc sh hc h args = .ok v) ∧
+    (sh.lookup h = none → sh.lookup Helper.dnsResolve = none → shadowHc sh hc h args = hc h args) := by
+  constructor
+  · intro v hv; simp [shadowHc, hv]
+  · intro h1 h2; simp [shadowHc, h1, h2]
+
+/-- the undeclared loop counter is an ordinary global: when `for (gi = 0; gi < n; gi++) { gx = e; }`
+    has run to its end, `gi` holds the bound. -/
+theorem c14_deco_loop_counter (hc : Helper → List Val → Res) (ctx : Option (Bytes × Bytes)) (i x : Name) (e : GExpr)
+    (n : Nat) (g g' : Globals) (h : execStmt hc ctx g (.loop i n x e) = (g', .ok ())) :
+    gget g' i = some (.num (Int.ofNat n)) := by
+  have key : ∀ fuel k g, loopRun hc ctx i x e fuel k g = (g', .ok ()) → gget g' i = some (.num (Int.ofNat (k + fuel))) := by
+    intro fuel
+    induction fuel with
+    | zero =>
+      intro k g hl
+      simp only [loopRun] at hl
+      have := (Prod.mk.inj hl).1
+      subst this
+      simp [gget, gset]
+    | succ f ih =>
+      intro k g hl
+      simp only [loopRun] at hl
+      split at hl
+      · have := ih _ _ hl
+        rw [this, show k + 1 + f = k + (f + 1) by omega]
+      · simp at hl
+      · simp at hl
+  simp only [execStmt] at h
+  split at h
+  · simp at h
+  · simpa using key n 0 g h
+
+/-- VMs with state: in every reachable state of the pool machine (any interleaving, any choice of
+    idle or fresh VM, idle VMs dropped at any time) no VM is held by two callers. -/
+theorem c14_pool_state_exclusive {ρ α σ : Type} (f : σ → ρ → α × σ) (s0 : σ) (req : Nat → ρ) (ops : List POp)
+    (c1 c2 v : Nat) (h1 : ((srun f s0 req ops).base.phase c1).vm? = some v)
+    (h2 : ((srun f s0 req ops).base.phase c2).vm? = some v) : c1 = c2 := by
+  have hi := (sinv_run f s0 req ops).pinv
+  exact hi.excl c1 c2 v (by show (Phase.erase _).vm? = _; rw [erase_vm]; exact h1)
+    (by show (Phase.erase _).vm? = _; rw [erase_vm]; exact h2)
+
+/-- "The resolver pool gives the answers of a single resolver", for scripts with global state:
+    every answer any caller obtains in any concurrent history is the answer a single resolver gives
+    to that caller's request after being asked, one at a time, some sub-sequence `h` of the
+    evaluations that happened before (the requests the caller's VM had served), all of them
+    requests of callers. -/
+theorem c14_pool_equals_single {ρ α σ : Type} (f : σ → ρ → α × σ) (s0 : σ) (req : Nat → ρ) (ops : List POp)
+    (c : Nat) (a : Option α) (h : ((srun f s0 req ops).base.phase c).answer? = some a) :
+    ∃ hist : List ρ, hist.Sublist (srun f s0 req ops).log ∧ (∀ r ∈ hist, ∃ c', r = req c') ∧
+      a = some (answerAfter f s0 hist (req c)) ∧
+      (seqAnswers f s0 (hist ++ [req c])).getLast? = some (answerAfter f s0 hist (req c)) := by
+  have hi := sinv_run f s0 req ops
+  obtain ⟨hist, hs, ha⟩ := hi.ans_ok c a h
+  exact ⟨hist, hs, fun r hr => hi.log_req r (hs.subset hr), ha, seqAnswers_getLast f s0 hist (req c)⟩
+
+/-- the form of that conclusion the check evaluates on what the implementation answered:
+    membership in the finite list `possibleAnswers`. -/
+theorem c14_pool_judge {ρ α σ : Type} (f : σ → ρ → α × σ) (s0 : σ) (log : List ρ) (q : ρ) (a : α) :
+    a ∈ possibleAnswers f s0 log q ↔ ∃ h, h.Sublist log ∧ a = answerAfter f s0 h q :=
+  mem_possibleAnswers f s0 log q a
+
+/-- when the answer does not depend on the VM's state (the script keeps no state, or rewrites what
+    it reads on every call) every pool answer is the answer of the request asked alone. -/
+theorem c14_pool_stateless {ρ α σ : Type} (f : σ → ρ → α × σ) (s0 : σ) (req : Nat → ρ) (ops : List POp)
+    (hf : ∀ st r, (f st r).1 = (f s0 r).1)
+    (c : Nat) (a : Option α) (h : ((srun f s0 req ops).base.phase c).answer? = some a) :
+    a = some (f s0 (req c)).1 := by
+  obtain ⟨hist, _, _, ha, _⟩ := c14_pool_equals_single f s0 req ops c a h
+  rw [ha]; unfold answerAfter; rw [hf]
+
+/-- For PAC evaluation of a decorated script loaded with globals `g0` (what its prelude leaves on a
+    fresh VM): every caller of every concurrent history gets `callD` of its own request on the
+    globals a single resolver has after some sub-sequence of the earlier evaluations. -/
+theorem c14_pool_deco (hc : Helper → List Val → Res) (s : DScript) (g0 : Globals) (req : Nat → Req) (ops : List POp)
+    (c : Nat) (a : Option Answer) (h : ((srun (callD hc s) g0 req ops).base.phase c).answer? = some a) :
+    ∃ hist : List Req, hist.Sublist (srun (callD hc s) g0 req ops).log ∧
+      a = some (callD hc s (seqState (callD hc s) g0 hist) (req c)).1 := by
+  obtain ⟨hist, hs, _, ha, _⟩ := c14_pool_equals_single (callD hc s) g0 req ops c a h
+  exact ⟨hist, hs, ha⟩
+
+/-- the serialisation matters: a per-VM counter (`if (typeof g0 === "undefined") g0 = 0; g0 = g0 + 1;
+    return String(g0);`) answers "1", "2", "3" on a single resolver … -/
+example :
+    let s : DScript := ⟨false, [], [], [.initOnce 0 (.num 0), .assign 0 (.plus 0 1)], .retGlob 0 true⟩
+    let r : Req := ⟨[], [], [119]⟩
+    seqAnswers (callD (callHelper ⟨[], [], []⟩) s) [] [r, r, r] = [.ok [49], .ok [50], .ok [51]] ∧
+      possibleAnswers (callD (callHelper ⟨[], [], []⟩) s) [] [r, r] r = [.ok [49], .ok [50], .ok [50], .ok [51]] := by
+  decide
+
+/-- … and through the pool two callers served by two VMs both get "1", a third caller that reuses
+    the first VM gets "2": each is the answer of a single resolver on a sub-sequence of the log. -/
+example :
+    let s : DScript := ⟨false, [], [], [.initOnce 0 (.num 0), .assign 0 (.plus 0 1)], .retGlob 0 true⟩
+    let r : Req := ⟨[], [], [119]⟩
+    let st := srun (callD (callHelper ⟨[], [], []⟩) s) [] (fun _ => r)
+      [.acquire 0 none, .acquire 1 none, .beginEval 0, .beginEval 1, .finish 1, .finish 0, .release 0,
+       .acquire 2 (some 0), .beginEval 2, .finish 2]
+    (st.base.phase 0).answer? = some (some (.ok [49])) ∧ (st.base.phase 1).answer? = some (some (.ok [49])) ∧
+      (st.base.phase 2).answer? = some (some (.ok [50])) ∧ st.log.length = 3 := by
+  decide
 
 end C14
 end FwdVerif
